@@ -239,6 +239,7 @@ class Harness:
         self.notes = []
         self.return_texts = []
         self.return_causes = []
+        self.return_values = []
         self.tick = 0
         self.ticks = {"msgs": [], "trans": [], "docs": [], "ledger": [], "yields": [], "arrivals": [], "returns": []}
         self.engine_closed = []      # run ids whose RunStop was written by the engine's cleanup
@@ -584,6 +585,7 @@ def run_scenario(sc, timeout=20.0):
                     try:
                         r = fn()
                         box["r"] = "return"
+                        box["v"] = [H.run_ids.get(u, "str") for u in r] if isinstance(r, (tuple, list)) else None
                     except RunEngineInterrupted:
                         box["r"] = "raise:RunEngineInterrupted"
                     except BaseException as e:  # noqa
@@ -600,6 +602,7 @@ def run_scenario(sc, timeout=20.0):
                 H.returns.append([label, box["r"], str(RE.state), bool(RE._interrupted), bool(RE._deferred_pause_requested), len(RE._run_bundlers)])
                 H.return_texts.append(box.get("text", ""))
                 H.return_causes.append(box.get("cause", ""))
+                H.return_values.append(box.get("v"))
                 H._t("returns")
                 return box["r"] != "hang"
 
@@ -656,5 +659,6 @@ def run_scenario(sc, timeout=20.0):
         "schema_errors": H.schema_errors,
         "plan_finished": H.plan_finished,
         "return_causes": H.return_causes,
+        "return_values": H.return_values,
         "statuses": [[st.dev, st.op, st.done, st.success] for st in H.statuses],
     }
